@@ -148,11 +148,12 @@ PROPERTIES.update({
         "level_note": "A1, A2 (np.arange length), A8 (named axiom instances incl. derivative rules).",
     },
     "C17": {
-        "modules": ["geo", "parser", "purity"], "level": "other", "floor": 20,
-        "assumptions": COMMON + [A["A8"]], "trusted": [T["Z3"]],
-        "explanation": "PROVED: both round trips (lat/lon -> xy -> lat/lon and xy -> lat/lon -> xy) are identities whenever cos(ref_lat) != 0, the origin maps to (0,0), x strictly increases eastward and y northward (cos(ref_lat) > 0 for |ref_lat| < 90), y independent of longitude, array arguments elementwise, tower coordinates filled from the forward map at configuration time. NOT decided: agreement with great-circle distance/bearing to 0.1 % / 0.1 deg (transcendental inequality over a 4-d box): BOUNDED sample against the haversine formulas (bounded/C17.py).",
-        "level_text": "Inverse pair and orientation proved; great-circle accuracy bounded.",
-        "level_note": "A1, A8 (cos positive at the reference latitude).",
+        "modules": ["geo", "parser", "purity"], "level": "proof", "floor": 35,
+        "assumptions": COMMON + [A["A8"], "A8 instances used by the accuracy lemmas (all true of the real functions): t^2(1 - t^2/12) <= 4 sin^2(t/2) <= t^2; 1 - t^2/2 <= cos t <= 1; sin^2 t <= t^2, (sin t - t)^2 <= (t^3/6)^2, t sin t >= 0; addition formulas of sin and cos; cos^2 + sin^2 = 1; s <= asin s <= s(1 + s^2) on [0, 1/10]; sqrt(h)^2 = h; the angle between two plane vectors with positive dot product is asin(|cross|/(|v||w|)); sin(0.1 deg) > 0.001745"],
+        "trusted": [T["Z3"], "oracle of the accuracy clause: haversine distance and initial great-circle bearing on the sphere of the code's own radius (textbook formulas, the same as in bounded/C17.py)"],
+        "explanation": "PROVED: both round trips (lat/lon -> xy -> lat/lon and xy -> lat/lon -> xy) are identities whenever cos(ref_lat) != 0, the origin maps to (0,0), x strictly increases eastward and y northward (cos(ref_lat) > 0 for |ref_lat| < 90), y independent of longitude, array arguments elementwise, tower coordinates filled from the forward map at configuration time whatever the tower's previous coordinates (idempotent). ACCURACY (lemma chain over the forward-map contract x = R b cos(phi0), y = R a; contracts/geo.py generate_accuracy): for local offsets up to 5 km and |ref_lat| <= 60 deg the great-circle distance 2 R asin(sqrt(hav)) is within 0.1 % of sqrt(x^2 + y^2) and the initial great-circle bearing within 0.1 deg of atan2(x, y) -- 14 polynomial inequalities over fresh reals that stand for the sines, cosines, square root and arcsine that occur, constrained only by named Taylor enclosures (A8); each discharged by z3 (nlsat) in milliseconds to seconds; non-vacuity by a pinned point; the chain fails, as it must, when the offset bound is raised to 50 km. The bounded sample against the haversine formulas (bounded/C17.py) stays as a native cross-check of oracle and lemmas.",
+        "level_text": "Inverse pair, orientation and the great-circle accuracy clause proved (the latter as SMT lemmas over the forward-map contract with named enclosure instances of sin/cos/asin).",
+        "level_note": "A1, A8 (cos positive at the reference latitude; Taylor enclosures named above).",
     },
     "C18": {
         "modules": ["ioc", "purity"], "level": "other", "floor": 400,
